@@ -275,6 +275,9 @@ def run_check(prop, tier, replay=None):
         else:
             model_res = run_model([mod.model_line(c) for c in cases])
         for c, ir, mr in zip(cases, impl_res, model_res):
+            if isinstance(ir, dict) and "skipped" in ir and len(ir) == 1:
+                stats["outcomes"]["skipped-after-timeouts"] = stats["outcomes"].get("skipped-after-timeouts", 0) + 1
+                continue
             n_eval += 1
             st = c.get("stream", "?")
             stats["streams"][st] = stats["streams"].get(st, 0) + 1
